@@ -24,6 +24,21 @@ SLOT_32 = [0xF1040301, 0xEB010203, 0xF0810155]          # ADD.W r3,r4,#1 ; ADD.W
 SLOT_LD = [0x6835, 0x7831]                              # LDR r5,[r6] ; LDRB r1,[r6]
 
 
+_slot_rows = {}
+
+
+def random_slot_word(rng, kind):
+    from vf import lockstep
+    from vf.ref.step import tables
+    tab = tables()[kind]
+    if kind not in _slot_rows:
+        fam = ('dp', 'ls', 'mul', 'mla', 'mls', 'umull', 'umlal', 'smull', 'smlal', 'xt', 'xta', 'bfc', 'ubfx', 'sbfx', 'clz', 'rev',
+               'movt', 'adr', 'qadd', 'ssat', 'usat', 'par', 'sel', 'ldm', 'stm', 'push', 'pop')
+        _slot_rows[kind] = [r for r in tab.rows if r.kind == 'INSTR' and r.sem and r.sem.split(':')[0] in fam]
+    row = rng.choice(_slot_rows[kind])
+    return lockstep.gen_word(tab, row, rng, tries=4)
+
+
 def legal_it():
     out = []
     for fc in range(15):
@@ -154,8 +169,19 @@ def run_program(ls, rng, fc, mask, nzcv):
             M.poke(cpu, code + 0x80, b'\x00\xbf' * 16)                            # Thumb NOPs
             kinds.append(bk + ('>arm' if to_arm and bk != 'b' else ''))
         else:
-            k = rng.choice(['a16', 'a16', 'a32', 'ld'])
-            if k == 'a16':
+            k = rng.choice(['a16', 'a16', 'a32', 'ld', 'r32', 'r16'])
+            if k in ('r32', 'r16'):
+                # any data-processing / load-store / multiply encoding of the reference tables with random operands (registers
+                # r0-r12): the condition each slot runs under must come from ITSTATE whatever the instruction's own bits say
+                w = random_slot_word(rng, 't32' if k == 'r32' else 't16')
+                if w is None:
+                    k = 'a16'
+                    body += rng.choice(SLOT_16).to_bytes(2, 'little')
+                elif k == 'r32':
+                    body += (w >> 16).to_bytes(2, 'little') + (w & 0xFFFF).to_bytes(2, 'little')
+                else:
+                    body += w.to_bytes(2, 'little')
+            elif k == 'a16':
                 body += rng.choice(SLOT_16).to_bytes(2, 'little')
             elif k == 'a32':
                 w = rng.choice(SLOT_32)
@@ -184,6 +210,7 @@ def run_program(ls, rng, fc, mask, nzcv):
     executed = skipped = 0
     trace = []
     took = False
+    stopped_early = False
     for stepno in range(n + 5):
         d2 = dict(desc, step=stepno)
         verdict, info, diffs, pre, post, ref = ls.run(ctx, d2)
@@ -191,6 +218,7 @@ def run_program(ls, rng, fc, mask, nzcv):
         trace.append('%#x:%s:%s' % (pre['PC'], info.get('row'), verdict))
         if verdict not in ('ok',):
             ls.bump('program_stopped_' + verdict)
+            stopped_early = True
             break
         if info.get('cond_passed') is True:
             executed += 1
@@ -220,6 +248,13 @@ def run_program(ls, rng, fc, mask, nzcv):
     final_it = ctx.cpu.registers.cpsr.it
     # skipping a trapped instruction by returning to the next one without editing SPSR.IT legitimately leaves the
     # block skewed (UDF, aborting load); only SVC (whose entry advances ITSTATE first) resumes exactly
+    if stopped_early or any(k_ in ('r32', 'r16') for k_ in kinds):
+        # random slot instructions may abort or be UNPREDICTABLE: the end-of-block invariant is only judged for the fixed
+        # instruction mix (every single step is still compared with the reference)
+        exc = 'not-judged-to-the-end'
+    if exc is None and took:
+        ls.bump('programs_with_unplanned_exception')          # a random slot instruction aborted / was undefined: the block is
+        exc = 'unplanned'                                    # legitimately skewed by the handler's fixed return offset
     if exc in (None, 'svc', 'hyptrap') and (ctx.cpu.registers.cpsr.m == desc_mode(desc)) and final_it != 0 and not ls.viol:
         ls.report('C08|itstate-not-retired', dict(desc, final_it=final_it, trace=trace), desc)
     if (executed and skipped) or took:
